@@ -283,3 +283,52 @@ def fn_body(src, name, which=0):
                 return src[ms[which].start():j + 1]
         j += 1
     raise TranslateError('unbalanced braces in fn %s' % name)
+
+
+# ---- notation-independent constants -------------------------------------------------------------
+# A constant inside a function body may be written as a decimal / hex / binary / octal literal (with
+# underscores and a type suffix) or as the name of a `const` of the same file.  ATOM matches any of
+# these; const_env evaluates every evaluable scalar `const` of a file; atom_val gives the integer.
+ATOM = r'(?:0[box][0-9a-fA-F_]+(?:[iu](?:8|16|32|64|128|size))?|\d[\d_]*(?:[iu](?:8|16|32|64|128|size))?|[A-Z][A-Z0-9_]*)'
+
+
+def const_env(src, seed=None):
+    """name -> int for every `const NAME: <int type> = EXPR;` of the file that can be evaluated
+    (repeated to a fixpoint so that constants may refer to each other in any order).  A name defined
+    twice with different values is left out."""
+    items = find_items(src)
+    env = dict(seed or {})
+    clash = set()
+    changed = True
+    while changed:
+        changed = False
+        for name, defs in items.items():
+            if name in env or name in clash:
+                continue
+            vals = set()
+            ok = True
+            for ty, body in defs:
+                if ty.replace('&', '').strip() not in INT_TYPES:
+                    ok = False
+                    break
+                try:
+                    vals.add(wrap(Evaluator(env).eval(body), ty.replace('&', '').strip()))
+                except TranslateError:
+                    ok = False
+                    break
+            if ok and len(vals) == 1:
+                env[name] = vals.pop()
+                changed = True
+            elif ok and len(vals) > 1:
+                clash.add(name)
+    return env
+
+
+def atom_val(tok, env):
+    tok = tok.strip()
+    if re.match(r'^[A-Z][A-Z0-9_]*$', tok):
+        if tok not in env:
+            raise TranslateError('constant %s used in a function body is not an evaluable const of the file' % tok)
+        return env[tok]
+    t = re.sub(r'[iu](8|16|32|64|128|size)$', '', tok).replace('_', '')
+    return int(t, 0) if t[:2] in ('0b', '0o', '0x') else int(t)
